@@ -90,6 +90,8 @@ class Interp:
         self.call_depth = 0
         self.assumptions = set()    # textual log of modelling assumptions used
         self.cur_exc = []
+        self.representations = {}   # (qualname, local name) -> 'symdict' | 'symset:key' | 'symset:int' | 'symlist' | 'list_of_symlist'
+        self.exit_asserts = {}      # qualname -> sidecar function over the locals at `return`
         from . import builtins as B
         self.B = B
 
@@ -163,6 +165,20 @@ class Interp:
                     pass
         return VFunc('def', node=node, globs=f.__globals__, pyfunc=f, closure_env=cenv,
                      name=f.__name__, qual=f'{f.__module__}.{f.__qualname__}')
+
+    # ------------------------------------------------------------------ sidecar representations
+    def represent(self, rep, name, v):
+        """Hold a freshly created empty container symbolically (sidecar-declared representation)."""
+        from . import symcoll
+        if rep == 'symdict' and isinstance(v, VDict) and not v.d:
+            return symcoll.SymDict(name)
+        if rep.startswith('symset') and isinstance(v, VSet) and not v.items:
+            return symcoll.SymSet(name, rep.split(':')[1] if ':' in rep else 'key')
+        if rep == 'symlist' and isinstance(v, VList) and not v.items:
+            return symcoll.SymList(name)
+        if rep == 'list_of_symlist' and isinstance(v, VList) and all(isinstance(x, VList) and not x.items for x in v.items):
+            return VList([symcoll.SymList(f'{name}{j}') for j in range(len(v.items))])
+        return v
 
     # ------------------------------------------------------------------ helpers
     def raise_(self, pycls):
@@ -267,6 +283,28 @@ class Interp:
 
     def e_BoolOp(self, node, env):
         is_and = isinstance(node.op, ast.And)
+        if str(env.globs.get('__name__', '')).startswith('contracts.'):
+            # sidecar (spec / invariant) code is pure: evaluate eagerly and combine as one formula when
+            # every operand is a boolean; fall back to short-circuit path splitting when an operand
+            # cannot be evaluated unconditionally (guards such as `x is not None and x.kind ...`)
+            saved = (len(self.ex.ctx.decisions), len(self.ex.ctx.pc))
+            try:
+                vals = []
+                for sub in node.values:
+                    v0 = self.eval(sub, env)
+                    if not isinstance(v0, VBool):
+                        raise Unsupported('non-boolean operand')
+                    vals.append(v0.t)
+                if len(self.ex.ctx.decisions) == saved[0]:
+                    return VBool(z3.And(vals) if is_and else z3.Or(vals))
+            except (PyRaise, Unsupported):
+                pass
+            if len(self.ex.ctx.decisions) != saved[0]:
+                # a decision was taken while evaluating eagerly: keep the path consistent by
+                # returning the combined value only if all operands were evaluated
+                if 'vals' in locals() and len(vals) == len(node.values):
+                    return VBool(z3.And(vals) if is_and else z3.Or(vals))
+                raise Unsupported('eager boolean evaluation interrupted by a decision')
         v = None
         for i, sub in enumerate(node.values):
             v = self.eval(sub, env)
@@ -520,8 +558,9 @@ class Interp:
             if k is None:
                 raise Unsupported('symbolic key in __dict__')
             return z3.BoolVal(k in container.fields['of'].fields)
-        if isinstance(container, VObj) and getattr(container, 'tag', None) == 'symset':
-            return self.B.symset_contains(self, container, item)
+        if isinstance(container, VObj) and container.tag in ('symset', 'symdict'):
+            from . import symcoll
+            return symcoll.contains(self, container, item)
         raise Unsupported(f'in on {container!r}')
 
     def _is_or_false(self, a, b):
@@ -625,7 +664,7 @@ class Interp:
                 d = VObj(object, tag='fieldsdict')
                 d.fields = {'of': v}
                 return d
-            if v.tag in ('recorder', 'symlist', 'symdict', 'symset'):
+            if v.tag in ('recorder', 'symlist', 'symdict', 'symset', 'bucket'):
                 return VFunc('builtin', name=f'method:{attr}', obj=None, self_=v)
             return self.class_attr(v, v.pycls, attr)
         if isinstance(v, VKind):
@@ -771,6 +810,9 @@ class Interp:
         if isinstance(t, ast.Name):
             if t.id in env.global_names:
                 raise Unsupported('assignment to module global')
+            rep = self.representations.get((env.qual, t.id))
+            if rep is not None:
+                v = self.represent(rep, t.id, v)
             env.vars[t.id] = v
         elif isinstance(t, (ast.Tuple, ast.List)):
             items = self.B.unpack(self, v, len(t.elts))
@@ -830,7 +872,23 @@ class Interp:
             self.exec_block(node.orelse, env)
 
     def s_Return(self, node, env):
-        raise ReturnSig(NONE if node.value is None else self.eval(node.value, env))
+        v = NONE if node.value is None else self.eval(node.value, env)
+        fn = self.exit_asserts.get(env.qual)
+        if fn is not None and getattr(env, 'top_level', False):
+            import inspect
+            from .values import truthy as _truthy
+            kwargs = {}
+            for p_ in inspect.signature(fn).parameters:
+                if p_ == 'result':
+                    kwargs[p_] = v
+                else:
+                    try:
+                        kwargs[p_] = env.lookup(p_)
+                    except KeyError:
+                        raise Unsupported(f'exit assertion mentions unknown local {p_!r}')
+            ok = self.call(self.lift(fn), [], kwargs)
+            self.ex.prove(f'{env.qual.replace("serif.", "", 1)}:exit', _truthy(ok), kind='post')
+        raise ReturnSig(v)
 
     def s_Raise(self, node, env):
         if node.exc is None:
@@ -936,6 +994,9 @@ class Interp:
                     kwargs = {}
                 except KeyError:
                     pass
+        if qual.startswith('contracts.specs.') and qual.rsplit('.', 1)[1] in self._spec_api():
+            from . import symcoll
+            return symcoll.spec_api(self, qual.rsplit('.', 1)[1], list(args))
         if qual == 'contracts.specs.sanitize_name':
             from .model import PyVal
             san_f = z3.Function('san_f', PyVal, PyVal)
@@ -964,6 +1025,7 @@ class Interp:
         env = Env(f.globs, f.closure_env, qual)
         env.func_node = f.node
         env.pyfunc = f.pyfunc
+        env.top_level = force_body
         self.bind(f, env, args, kwargs)
         if self.call_depth > 40:
             raise Unsupported('call depth')
@@ -1108,6 +1170,10 @@ class Interp:
             for ph, act in zip(ts, self._leaf_terms(a)):
                 pairs.append((ph, act))
         return self._subst(merged, pairs)
+
+    def _spec_api(self):
+        from . import symcoll
+        return symcoll.SPEC_API
 
     def bind(self, f, env, args, kwargs):
         a = f.node.args
